@@ -19,7 +19,9 @@ EXPLANATION = (
     "early empty return happens exactly for non-source, non-series-loss kinds with a phase table that lacks the phase; "
     "(R5) the subsystem flag of a domain ends at 1 iff a row of that domain has a warning (initialisation on the source row "
     "happens before the row's own warning is recorded), 'Yes' is written iff the flag is set, and the total says 'Yes' iff "
-    "any row does; (R6) solve() hands the warning routine the same operands as the power routine. Not decided: the "
+    "any row does; (R6) solve() hands the warning routine the same operands as the power routine; (R7) the limits reach the "
+    "comparison as configured: _check_limits returns its argument without storing into it, every constructor keeps "
+    "_check_limits(limits) in _limits and nothing else in the package writes _limits or its entries. Not decided: the "
     "numeric values compared (C01-C03).")
 
 ALL_KEYS = ["vi", "vo", "vd", "ii", "io", "pi", "po", "pl", "tr", "tp"]
@@ -33,6 +35,7 @@ def run(model, rep, tier):
     A_(r3, model, rep)
     A_(r5, model, rep)
     A_(lambda: sysrules.row_assembly(model, rep, sysrules.roles(model), "R6", ["Warnings", "Power (W)"]))
+    A_(r7, model, rep)
 
 
 # ------------------------------------------------------------------------------------------------ R1
@@ -362,3 +365,54 @@ def r5(model, rep):
     if not ok:
         rep.violation("R5", "system.System.solve", where, "System total does not say 'Yes' exactly when any row has a warning", "total yes")
     rep.instance("R5", "system.System.solve System total says Yes iff any warning", where, ok)
+
+
+# ------------------------------------------------------------------------------------------------ R7
+def r7(model, rep):
+    """the [min, max] pair compared in _get_warns is the pair the user configured"""
+    rel = model.rel("components")
+    fn = model.func("components", "_check_limits")
+    where = "%s:%d" % (rel, fn.lineno)
+    P = fn.args.args[0].arg
+    ok = True
+    for x in ast.walk(fn):
+        tg = x.targets if isinstance(x, (ast.Assign, ast.Delete)) else ([x.target] if isinstance(x, (ast.AugAssign, ast.AnnAssign)) else [])
+        for t in tg:
+            b = t
+            while isinstance(b, (ast.Subscript, ast.Attribute)):
+                b = b.value
+            if isinstance(b, ast.Name) and b.id == P and (t is not b):
+                ok = False
+                rep.violation("R7", "components._check_limits", "%s:%d" % (rel, x.lineno), "the validator rewrites the limits it checks (%s): the pair compared later is not the pair that was configured" % ast.unparse(x)[:80], "limits rewritten by validator")
+            elif isinstance(b, ast.Name) and b.id == P and t is b:
+                ok = False
+                rep.violation("R7", "components._check_limits", "%s:%d" % (rel, x.lineno), "the validator re-binds its argument before returning it", "limits rebound by validator")
+        if isinstance(x, ast.Call) and isinstance(x.func, ast.Attribute) and x.func.attr in ("sort", "reverse", "update", "pop", "clear", "setdefault", "append", "insert", "remove"):
+            b = x.func.value
+            while isinstance(b, (ast.Subscript, ast.Attribute)):
+                b = b.value
+            if isinstance(b, ast.Name) and b.id == P:
+                ok = False
+                rep.violation("R7", "components._check_limits", "%s:%d" % (rel, x.lineno), "the validator modifies the limits it checks (%s)" % ast.unparse(x)[:80], "limits modified by validator")
+    rets = [x for x in ast.walk(fn) if isinstance(x, ast.Return)]
+    if not rets or any(not (isinstance(x.value, ast.Name) and x.value.id == P) for x in rets):
+        ok = False
+        rep.violation("R7", "components._check_limits", where, "the validator does not return the limits it was given", "validator return")
+    rep.instance("R7", "components._check_limits passes the limits through unchanged", where, ok)
+    # writers of _limits: constructors only, and only with the validator's result
+    n = 0
+    for mod, qn, f in model.all_functions():
+        for x in ast.walk(f):
+            tg = x.targets if isinstance(x, (ast.Assign, ast.Delete)) else ([x.target] if isinstance(x, (ast.AugAssign, ast.AnnAssign)) else [])
+            for t in tg:
+                b, depth = t, 0
+                while isinstance(b, ast.Subscript):
+                    b, depth = b.value, depth + 1
+                if isinstance(b, ast.Attribute) and b.attr == "_limits":
+                    n += 1
+                    good = depth == 0 and isinstance(x, ast.Assign) and qn.endswith(".__init__") and ((isinstance(x.value, ast.Call) and ast.unparse(x.value.func) == "_check_limits") or (isinstance(x.value, ast.Name) and x.value.id == "LIMITS_DEFAULT"))
+                    if not good:
+                        rep.violation("R7", "%s.%s" % (mod, qn), "%s:%d" % (model.rel(mod), x.lineno), "%s writes the component limits outside the constructor's validated assignment (%s)" % (qn, ast.unparse(x)[:80]), "limits written in " + qn)
+                        ok = False
+    rep.instance("R7", "_limits is written only as _check_limits(limits) in constructors", where, ok, "%d write sites" % n)
+    rep.floor("R7", n, 11)
